@@ -137,6 +137,8 @@ def run(ctx):
     n_applies = 0
     n_operands = 0
     skipped = dict(no_args=0, ref_nothing=0, ref_dies=0, shape_model=0)
+    ref_died_in = set()
+    shape_model_off = set()
     families_seen = set()
     classes_seen = set()
     crashes_total = 0
@@ -187,6 +189,7 @@ def run(ctx):
             if cid_ in crashed or cid_ not in results or "EXC" in results[cid_]:
                 ref_bad.add(cid_)
                 skipped["ref_dies"] += 1
+                ref_died_in.add(describe(m["spec"]))
                 continue
             rt, _ = split_hooks(results[cid_])
             try:
@@ -218,7 +221,14 @@ def run(ctx):
                 check_crash(ctx, m, "exception:" + what.split(":")[0][:40], " ".join(toks[k:k + 2]), det, finfo)
                 continue
             for (s, v, f0, f1) in hacc.add(hooks):
-                ctx.violation("%s:hook:%s" % (spec["t"], SITE_NAMES.get(s, s)), "bounds hook %s fired (index %d bound %d) in %s" % (SITE_NAMES.get(s, s), f0, f1, describe(spec)), det)
+                site = SITE_NAMES.get(s, s)
+                ec_ = E.extract_class(G.number_instances(spec["tree"]), finfo) if spec["t"] == "C" else None
+                if m["part"] == "apply" and ec_ in ("view_operand_at_pos_ge1", "composite_view"):
+                    # the linear composition hands operands to the wrong functors: an out-of-range index inside the re-applied views is one of its symptoms
+                    ctx.violation("extract:%s:apply_differs" % ec_, "apply(get_function_composition(v), get_function_operands(v)) indexes outside an operand "
+                                  "(hook %s: index %d bound %d) for v = %s" % (site, f0, f1, describe(spec)), det)
+                else:
+                    ctx.violation("%s:hook:%s" % (spec["t"], site), "bounds hook %s fired (index %d bound %d) in %s" % (site, f0, f1, describe(spec)), det)
             ctx.ev()
             try:
                 if "ERR" in toks[:1] or (len(toks) >= 2 and toks[-2] == "ERR"):
@@ -253,6 +263,7 @@ def run(ctx):
     ctx.set("functor_families_exercised", sorted(families_seen))
     ctx.set("structure_classes_exercised", sorted(classes_seen))
     ctx.set("cases_skipped", skipped)
+    ctx.set("direct_view_call_died_in", sorted(ref_died_in)[:20])
     ctx.set("crashes_contained", crashes_total)
     ctx.set("hook_events", hacc.summary())
     ctx.set("allow_list", dict(supported=len(G.load_supported()["supported"]), rejected=len(G.load_supported().get("rejected", []))))
